@@ -237,7 +237,7 @@ def g3(prog, ctx, chain):
     for wname in NONCB_WRAPPERS:
         if not prog.has_fn(wname):
             ctx.inconclusive("G3", "wrapper %s" % wname, "", "anchor vanished")
-    ctx.floor("C06.G3 forwarding call sites", sites, 14)
+    ctx.floor("C06.G3 forwarding call sites", sites, 8)
 
 
 def _success_edge(lit, v):
@@ -304,7 +304,7 @@ def g4(prog, ctx, chain):
                         problems.append(("call", n))
                     if n.k == "BinaryOperator" and n.j.get("op") == "=" and render(n.children[0]) == v and n.children[1].strip() is not c:
                         problems.append(("overwrite", n))
-                    if n.k == "ReturnStmt":
+                    if n.k == "ReturnStmt" and not n.j.get("inlined_return"):
                         if not n.children or render(n.children[0]) != v:
                             problems.append(("return", n))
             # loops: the call block itself may be re-entered from the region through an uncut back edge
@@ -325,7 +325,7 @@ def g4(prog, ctx, chain):
                        "loop": "after %s failed the loop goes on to the next file (failure swallowed)" % callee}[kind]
                 ctx.fail("G4", inst, n.where, msg, key=key,
                          path=cfg.describe_path(cfg.witness_path(cfg.block_of(n), avoid_edges=cut, start=start)))
-    ctx.floor("C06.G4 propagation sites", sites, 12)
+    ctx.floor("C06.G4 propagation sites", sites, 7)
 
 
 def run(prog, ctx):
